@@ -145,7 +145,12 @@ let parse_env toks =
   let g k = try Hashtbl.find tbl k with Not_found -> fail "env key %s missing" k in
   { e_kind = kind_parse (g "kind"); e_adaptor = adaptor_parse (g "adaptor"); e_len = n_parse (g "len");
     e_start = n_parse (g "start"); e_end = n_parse (g "end"); e_hint = hint_parse (g "hint");
-    e_owning = (g "owning" = "1"); e_mode = mode_parse (g "mode"); e_crash = on_parse (g "crash") }
+    e_owning = (g "owning" = "1"); e_mode = mode_parse (g "mode"); e_crash = on_parse (g "crash");
+    (* optional key gap=<k>: the k-th call (0-based) of the wrapped next() answers None although elements
+       may remain (a wrapped iterator that is not fused); absent or "-": a fused iterator *)
+    e_gap = (match (try on_parse (Hashtbl.find tbl "gap") with Not_found -> None) with
+             | Some gk -> (fun k -> N.eqb k gk)
+             | None -> (fun _ -> false)) }
 
 let words s = List.filter (fun x -> x <> "") (split ' ' s)
 
@@ -166,6 +171,11 @@ let read_cases ic : case list =
        | ["seed"; s] -> (match !cur with Some c -> cur := Some { c with seed = int_of_string s } | None -> ())
        | ["gen"; g] -> (match !cur with Some c -> cur := Some { c with gen = g } | None -> ())
        | ["c0"; k] -> (match !cur with Some c -> c.c0 <- Some (n_parse k) | None -> ())
+       | ["gap"; g] ->
+           (* a case line "gap <k>" (after the env line): the same as the env key gap=<k> *)
+           (match !cur, on_parse g with
+            | Some c, Some gk -> cur := Some { c with env = { c.env with e_gap = (fun k -> N.eqb k gk) } }
+            | _, _ -> ())
        | ["sched"; s] ->
            (match !cur with
             | Some c -> c.sched <- (if s = "-" then None else if s = "." then Some [] else Some (List.map int_of_string (split ',' s)))
